@@ -58,11 +58,41 @@ pub enum GOp {
     SetRefund(i64),
 }
 
+// ---------------------------------------------------------------- stack opcodes (C12, C13)
+
+/// One stack instruction of a generated program that is run by the real interpreter loop.
+#[derive(Clone, Debug, Serialize, Deserialize, PartialEq)]
+pub enum COp {
+    Push0,
+    /// PUSHn with its n immediate bytes
+    Push(Vec<u8>),
+    Pop,
+    Dup(u8),
+    Swap(u8),
+    /// EOF only: DUPN / SWAPN / EXCHANGE with their immediate byte
+    DupN(u8),
+    SwapN(u8),
+    Exchange(u8),
+}
+
+#[derive(Clone, Debug, Serialize, Deserialize, PartialEq)]
+pub struct CodeCase {
+    pub spec: String,
+    pub eof: bool,
+    pub ops: Vec<COp>,
+    pub gas_limit: u64,
+    /// legacy only: bytes cut off the immediate of a final PUSHn (the code ends inside it)
+    pub truncate: usize,
+    /// "C12" | "C13": which property a violation is reported under
+    pub prop: String,
+}
+
 #[derive(Clone, Debug, Serialize, Deserialize)]
 pub enum AdtCase {
     Stack(Vec<SOp>),
     Memory(Vec<MOp>),
     Gas(u64, Vec<GOp>),
+    Code(CodeCase),
 }
 
 pub struct AdtSim {
@@ -117,6 +147,7 @@ impl Engine for AdtSim {
         // under Miri (about 1000x slower) histories are shorter
         let n = if cfg!(miri) { rng.range(3, 24) as usize } else { rng.range(3, 80) as usize };
         match self.focus.as_str() {
+            "C12" | "C13" if rng.chance(1, 4) => AdtCase::Code(gen_code_case(rng, &self.focus)),
             "C12" => {
                 let mut ops = Vec::new();
                 if rng.chance(1, 3) {
@@ -195,6 +226,7 @@ impl Engine for AdtSim {
             AdtCase::Stack(ops) => run_stack(ops, stats),
             AdtCase::Memory(ops) => run_memory(ops, stats),
             AdtCase::Gas(limit, ops) => run_gas(*limit, ops, stats),
+            AdtCase::Code(c) => run_code(c, stats),
         }
     }
 
@@ -203,8 +235,80 @@ impl Engine for AdtSim {
             AdtCase::Stack(ops) => shrink_vec(ops).into_iter().map(AdtCase::Stack).collect(),
             AdtCase::Memory(ops) => shrink_vec(ops).into_iter().map(AdtCase::Memory).collect(),
             AdtCase::Gas(l, ops) => shrink_vec(ops).into_iter().map(|o| AdtCase::Gas(*l, o)).collect(),
+            AdtCase::Code(c) => {
+                let mut out: Vec<AdtCase> = shrink_vec(&c.ops)
+                    .into_iter()
+                    .map(|o| {
+                        let mut n = c.clone();
+                        // the cut only makes sense while the program still ends in a long enough PUSHn
+                        if !matches!(o.last(), Some(COp::Push(b)) if b.len() > n.truncate) {
+                            n.truncate = 0;
+                        }
+                        n.ops = o;
+                        AdtCase::Code(n)
+                    })
+                    .collect();
+                if c.truncate > 0 {
+                    let mut n = c.clone();
+                    n.truncate = 0;
+                    out.push(AdtCase::Code(n));
+                }
+                out
+            }
         }
     }
+}
+
+const CODE_SPECS: &[&str] = &["FRONTIER", "BYZANTIUM", "LONDON", "SHANGHAI", "CANCUN", "PRAGUE", "OSAKA"];
+
+fn cop_cost(op: &COp) -> u64 {
+    match op {
+        COp::Push0 | COp::Pop => 2,
+        _ => 3,
+    }
+}
+
+fn gen_code_case(rng: &mut Rng, prop: &str) -> CodeCase {
+    let eof = rng.chance(1, 3);
+    let spec = if eof { "OSAKA" } else { *rng.pick(CODE_SPECS) };
+    // long programs reach the 1024 limit; under Miri they stay short
+    let n = if cfg!(miri) {
+        rng.range(1, 30) as usize
+    } else if rng.chance(1, 5) {
+        rng.range(1000, 1100) as usize
+    } else {
+        rng.range(1, 60) as usize
+    };
+    let growing = n >= 1000 || rng.chance(1, 3);
+    let mut ops = Vec::with_capacity(n);
+    for _ in 0..n {
+        let k = if growing { rng.below(40) } else { rng.below(12) };
+        ops.push(match k {
+            0 => COp::Pop,
+            1 => COp::Swap(rng.range(1, 16) as u8),
+            2 if eof => COp::SwapN(*rng.pick(&[0u8, 1, 15, 16, 17, 200, 255])),
+            3 if eof => COp::Exchange(rng.below(256) as u8),
+            4 if eof => COp::DupN(*rng.pick(&[0u8, 1, 15, 16, 17, 200, 255])),
+            5 => COp::Push0,
+            6 | 7 => COp::Dup(rng.range(1, 16) as u8),
+            _ => {
+                let len = *rng.pick(&[1usize, 1, 2, 8, 20, 31, 32, 32]);
+                let mut b = rng.bytes(len);
+                if rng.chance(1, 4) {
+                    b[0] = 0;
+                }
+                COp::Push(b)
+            }
+        });
+    }
+    let total: u64 = ops.iter().map(cop_cost).sum();
+    // F2 at this surface: the gas limit lands the out-of-gas on an arbitrary instruction
+    let gas_limit = if prop == "C13" || rng.chance(1, 3) { rng.below(total + 4) } else { total + rng.below(1000) };
+    let truncate = match ops.last() {
+        Some(COp::Push(b)) if !eof && rng.chance(1, 2) => rng.range(1, b.len() as u64) as usize,
+        _ => 0,
+    };
+    CodeCase { spec: spec.to_string(), eof, ops, gas_limit, truncate, prop: prop.to_string() }
 }
 
 #[allow(non_snake_case)]
@@ -600,5 +704,157 @@ pub fn run_gas(limit: u64, ops: &[GOp], stats: &mut Stats) -> Vec<Violation> {
     if stats.samples.is_empty() {
         stats.samples.push(json!({"limit": limit, "ops": ops.iter().take(10).map(|o| format!("{o:?}")).collect::<Vec<_>>()}));
     }
+    vec![]
+}
+
+fn assemble(ops: &[COp], eof: bool, truncate: usize) -> Vec<u8> {
+    let mut code = Vec::new();
+    for op in ops {
+        match op {
+            COp::Push0 => code.push(0x5f),
+            COp::Push(b) => {
+                code.push(0x5f + b.len() as u8);
+                code.extend_from_slice(b);
+            }
+            COp::Pop => code.push(0x50),
+            COp::Dup(n) => code.push(0x7f + n),
+            COp::Swap(n) => code.push(0x8f + n),
+            COp::DupN(i) => code.extend_from_slice(&[0xe6, *i]),
+            COp::SwapN(i) => code.extend_from_slice(&[0xe7, *i]),
+            COp::Exchange(i) => code.extend_from_slice(&[0xe8, *i]),
+        }
+    }
+    if eof {
+        code.push(0x00);
+        let mut c = vec![0xef, 0x00, 0x01, 0x01, 0x00, 0x04, 0x02, 0x00, 0x01];
+        c.extend_from_slice(&(code.len() as u16).to_be_bytes());
+        // no data section; one code section: 0 inputs, non-returning, max stack height 1023
+        c.extend_from_slice(&[0x04, 0x00, 0x00, 0x00, 0x00, 0x80, 0x03, 0xff]);
+        c.extend_from_slice(&code);
+        c
+    } else {
+        let l = code.len();
+        code.truncate(l - truncate);
+        code
+    }
+}
+
+/// A program of stack instructions only, executed by the real interpreter loop with the
+/// real instruction table; the final stack, the gas meter and the result are compared with
+/// a list model and a counter. The gas limit lands the out-of-gas on arbitrary instructions.
+pub fn run_code(c: &CodeCase, stats: &mut Stats) -> Vec<Violation> {
+    use crate::itp::analysis::to_analysed;
+    use crate::itp::opcode::make_instruction_table;
+    use crate::itp::primitives::{spec_to_generic, Address, Bytecode, Bytes, Eof, SpecId};
+    use crate::itp::{Contract, DummyHost, Interpreter, InterpreterAction};
+    let prop = c.prop.as_str();
+    let spec = SpecId::from(c.spec.as_str());
+    let raw = assemble(&c.ops, c.eof, c.truncate);
+    let bytecode = if c.eof {
+        match Eof::decode(Bytes::from(raw)) {
+            Ok(e) => Bytecode::Eof(std::sync::Arc::new(e)),
+            Err(e) => return vec![viol(prop, "harness", "assemble", format!("container does not decode: {e:?}"))],
+        }
+    } else {
+        to_analysed(Bytecode::new_legacy(Bytes::from(raw)))
+    };
+    // ---- model
+    let shanghai = SpecId::enabled(spec, SpecId::SHANGHAI);
+    let mut model: Vec<U256> = Vec::new();
+    let mut remaining = c.gas_limit;
+    let mut expect = InstructionResult::Stop;
+    let mut executed = 0usize;
+    let last = c.ops.len().wrapping_sub(1);
+    for (i, op) in c.ops.iter().enumerate() {
+        if matches!(op, COp::Push0) && !shanghai {
+            expect = InstructionResult::NotActivated;
+            break;
+        }
+        let cost = cop_cost(op);
+        if cost > remaining {
+            expect = InstructionResult::OutOfGas;
+            stats.inc("probe.code_out_of_gas_mid_program");
+            break;
+        }
+        remaining -= cost;
+        let l = model.len();
+        let r: Result<(), InstructionResult> = match op {
+            COp::Push0 => {
+                if l >= 1024 { Err(InstructionResult::StackOverflow) } else { model.push(U256::ZERO); Ok(()) }
+            }
+            COp::Push(b) => {
+                if l >= 1024 {
+                    Err(InstructionResult::StackOverflow)
+                } else {
+                    // a PUSHn that runs past the end of the code reads zeros there
+                    let mut w = [0u8; 32];
+                    let n = b.len();
+                    let avail = if i == last { n - c.truncate } else { n };
+                    w[32 - n..32 - n + avail].copy_from_slice(&b[..avail]);
+                    if avail < n {
+                        stats.inc("probe.code_push_past_end");
+                    }
+                    model.push(U256::from_be_bytes(w));
+                    Ok(())
+                }
+            }
+            COp::Pop => model.pop().map(|_| ()).ok_or(InstructionResult::StackUnderflow),
+            COp::Dup(_) | COp::DupN(_) => {
+                let n = match op { COp::Dup(n) => *n as usize, COp::DupN(i) => *i as usize + 1, _ => unreachable!() };
+                if l < n { Err(InstructionResult::StackUnderflow) } else if l >= 1024 { Err(InstructionResult::StackOverflow) } else { model.push(model[l - n]); Ok(()) }
+            }
+            COp::Swap(_) | COp::SwapN(_) => {
+                let n = match op { COp::Swap(n) => *n as usize, COp::SwapN(i) => *i as usize + 1, _ => unreachable!() };
+                if n >= l { Err(InstructionResult::StackUnderflow) } else { model.swap(l - 1, l - 1 - n); Ok(()) }
+            }
+            COp::Exchange(imm) => {
+                // EIP-663: n = (imm >> 4) + 1, m = (imm & 15) + 1; swaps item n+1 with item n+m+1 (1 = top)
+                let (n, m) = ((imm >> 4) as usize + 1, (imm & 0x0f) as usize + 1);
+                if n + m >= l { Err(InstructionResult::StackUnderflow) } else { model.swap(l - 1 - n, l - 1 - n - m); Ok(()) }
+            }
+        };
+        if let Err(e) = r {
+            expect = e;
+            stats.inc(&format!("probe.code_{e:?}"));
+            break;
+        }
+        executed += 1;
+    }
+    // ---- real interpreter
+    let contract = Contract::new(Bytes::new(), bytecode, None, Address::with_last_byte(0x77), None, Address::with_last_byte(0x11), U256::ZERO);
+    let mut interp = Interpreter::new(contract, c.gas_limit, false);
+    let mut host = DummyHost::default();
+    let mut memory = SharedMemory::new();
+    memory.new_context();
+    let action = spec_to_generic!(spec, {
+        let table = make_instruction_table::<DummyHost, SPEC>();
+        interp.run(memory, &table, &mut host)
+    });
+    let InterpreterAction::Return { result } = action else {
+        return vec![viol(prop, &format!("{prop}.code-model"), "run", format!("a program of stack instructions ended with the action {action:?}"))];
+    };
+    stats.add("steps.executed", executed as u64);
+    stats.inc(&format!("outcome.code_{:?}", result.result));
+    if model.len() == 1024 {
+        stats.inc("probe.code_stack_full");
+    }
+    let at = format!("after {executed} of {} instructions ({})", c.ops.len(), c.ops.get(executed).map(|o| format!("next {o:?}")).unwrap_or_else(|| "end".into()));
+    if result.result != expect {
+        let p = if matches!(expect, InstructionResult::OutOfGas) || matches!(result.result, InstructionResult::OutOfGas) { "C13" } else { "C12" };
+        return vec![viol(p, &format!("{p}.code-result"), "run", format!("result {:?}, model expects {expect:?} {at}", result.result))];
+    }
+    if interp.stack.data() != &model {
+        let d = interp.stack.data().iter().zip(model.iter()).position(|(a, b)| a != b);
+        return vec![viol("C12", "C12.code-model", "run", format!("final stack differs from the model (len {} vs {}, first difference at {d:?}; result {expect:?}) {at}", interp.stack.len(), model.len()))];
+    }
+    if result.gas.remaining() != remaining || result.gas.limit() != c.gas_limit || result.gas.spent() != c.gas_limit - remaining {
+        return vec![viol("C13", "C13.code-gas", "run", format!("gas meter (limit {}, remaining {}) differs from the model (limit {}, remaining {remaining}; result {expect:?}) {at}", result.gas.limit(), result.gas.remaining(), c.gas_limit))];
+    }
+    let mut fp = Hasher64::new();
+    fp.s(&c.spec).u(c.eof as u64).s(&format!("{expect:?}")).u(executed.min(64) as u64);
+    for o in c.ops.iter().take(24) {
+        fp.u(match o { COp::Push0 => 1, COp::Push(b) => 100 + b.len() as u64, COp::Pop => 2, COp::Dup(n) => 200 + *n as u64, COp::Swap(n) => 300 + *n as u64, COp::DupN(_) => 3, COp::SwapN(_) => 4, COp::Exchange(_) => 5 });
+    }
+    stats.fingerprint(fp.finish());
     vec![]
 }
